@@ -14,7 +14,10 @@ DEFAULTS = [
     (r'dns/name\.rs', r'as WireFormat::parse\b', r'invariant.*|termination|assert|postcondition', {'C06'}),
     (r'dns/(question|resource_record|packet)\.rs|dns/rdata/macros\.rs', r'(^|::)(parse|parse_rdata|parse_section)\b', r'postcondition|invariant.*|assert', {'C05'}),
     (r'dns/rdata/.*\.rs|dns/character_string\.rs', r'(^|::)(parse|parse_rdata|write_to|len|write_common|lemma_rt)\b', r'postcondition|invariant.*|assert', {'C10'}),
-    (r'dns/.*\.rs', r'(^|::)lemma_rt\b', r'.*', {'C02', 'C03', 'C11'}),
+    (r'dns/.*\.rs', r'(^|::)(lemma_rt|lemma_det)\b', r'.*', {'C02', 'C03', 'C11'}),
+    (r'dns/packet\.rs', r'(^|::)lemma_\w+', r'.*', {'C02', 'C03', 'C04', 'C11'}),
+    (r'dns/rdata/opt\.rs', r'.*', r'.*', {'C09'}),
+    (r'dns/header\.rs', r'(^|::)(opt_rr|extract_info_from_opt_rr)\b', r'.*', {'C09'}),
     # writers must not panic and must emit what their contract says
     (r'dns/.*\.rs', r'(^|::)(write_to|write_common|plain_append|write_header|len|build_bytes_vec|opt_rr|get_flags)\b', r'.*', {'C04'}),
     (r'dns/.*\.rs', r'(^|::)(write_compressed_to|compress_append|build_bytes_vec_compressed)\b', r'.*', {'C03', 'C07'}),
@@ -65,7 +68,7 @@ PROPS = {
             'technique': 'Verus: Packet::parse / parse_section / ResourceRecord::parse / RData::parse / Question::parse proved against an RFC 1035 envelope spec (chain of entries, RDLENGTH-delimited RDATA, typed content decoded from the message truncated at the RDATA end)',
             'text': 'proof for all byte strings: Ok(p) implies the sections are back-to-back chains of entries starting at offset 12 with the header counts, each record spans name + 10 + RDLENGTH bytes, type/class/ttl/cache-flush are those of the entry, and the cursor after each record is its RDATA end',
             'note': VERUS_NOTE + '; header_buffer count readers are assumed in Verus with the statements proved by the Kani harnesses of C01/C08'},
-    'C09': {'standin': ['roundtrip', 'malformed'], 'verus': True, 'kani': ['opt_ttl_layout', 'opt_ttl_parse_side'],
+    'C09': {'standin': ['roundtrip', 'malformed'], 'verus': True, 'kani': ['opt_ttl_layout', 'opt_ttl_parse_side', 'opt_rr_shape'],
             'technique': 'Verus: OPT::parse / write_to against a code-length-value list spec, encode_ttl / extract_rcode_from_ttl against the RFC 6891 TTL layout, ARCOUNT and single OPT record in Packet::write_to, OPT lifting in Packet::parse; Kani loop-free harnesses for the TTL word',
             'text': 'proof: TTL = ext-rcode<<24 | version<<16, CLASS slot = UDP size, options are exactly the code/length/value triples, the OPT record is written once and counted in ARCOUNT, parsing removes the first OPT record and recombines the 12-bit rcode (for header nibbles that map to named codes)',
             'note': VERUS_NOTE + '; ' + KANI_NOTE + '; Header::opt_rr (closure + array-to-Name conversion) is assumed with the contract checked by inspection; OPT::len assumed'},
